@@ -217,4 +217,21 @@ def lemma_trap(e):
     e.lemma("utf8.step_total", [], z3.ForAll([s_, x], z3.Implies(z3.And(0 <= s_, s_ <= 8), z3.And(0 <= spec.step_u(s_, x), spec.step_u(s_, x) <= 8))), props=("C06",))
 
 
-LEMMAS = {"lemma:utf8.trap_absorbing": lemma_trap}
+def lemma_roundtrip(e):
+    """L-RT: an independent RFC decoder applied to rfc_encode(frame) ++ tail recovers exactly the frame (C01)."""
+    fin, r1, r2, r3, op, mv = z3.Ints("fin r1 r2 r3 op mv")
+    key, pay, tail = z3.Consts("key pay tail", smt.Sq)
+    n = slen(pay)
+    hyp = [z3.And(*[z3.Or(x == 0, x == 1) for x in (fin, r1, r2, r3, mv)]), 0 <= op, op <= 15, n < 2 ** 63, slen(key) == 4]
+    enc = spec.rfc_encode(fin, r1, r2, r3, op, mv, key, pay)
+    d = spec.Dec(cat(enc, tail), z3.IntVal(0))
+    for nm, lo, hi in (("len<=125", 0, 125), ("len<=65535", 126, 65535), ("len>65535", 65536, 2 ** 63 - 1)):
+        h = hyp + [n >= lo, n <= hi]
+        e.lemma(f"L-RT.header[{nm}]", h, z3.And(d.fin == fin, d.rsv1 == r1, d.rsv2 == r2, d.rsv3 == r3, d.opcode == op,
+                                               d.masked == mv, d.length == n, d.next == slen(enc)), props=("C01",))
+        e.lemma(f"L-RT.payload[{nm}]", h, smt.seq_eq(d.payload, pay), props=("C01",))
+        e.lemma(f"L-RT.key[{nm}]", h + [mv == 1], smt.seq_eq(d.key, key), props=("C01",))
+        e.lemma(f"L-LEN[{nm}]", h, slen(enc) == n + (2 if hi == 125 else 4 if hi == 65535 else 10) + 4 * mv, props=("C01",))
+
+
+LEMMAS = {"lemma:utf8.trap_absorbing": lemma_trap, "lemma:roundtrip": lemma_roundtrip}
